@@ -338,7 +338,8 @@ class DbKey(Base):
     )
 
     def __repr__(self):
-        return "<DbKey(id='%s', name='%s', wif='%s'>" % (self.id, self.name, self.wif)
+        # Never print private key material: show the address instead of the (possibly private) WIF
+        return "<DbKey(id='%s', name='%s', address='%s'>" % (self.id, self.name, self.address)
 
 
 class DbNetwork(Base):
